@@ -40,6 +40,8 @@ pub struct SoloCfg {
     /// correctly signed blocks that lack a justification: rounds skipped without a TC, and blocks
     /// whose QC is of a round at or above their own (they may be stored, never voted for)
     pub with_unjustified: bool,
+    /// the node's own mempool hands a digest to its proposer (its next proposal carries a payload)
+    pub with_digest: bool,
 }
 
 pub struct Uni2 {
@@ -114,6 +116,9 @@ pub fn menu(s: &Search, sc: &SoloCfg, u: &Uni2, stale_blocks: &[Block]) -> Vec<E
     let mut evs: Vec<Ev> = vec![Ev::Timer];
     if sc.with_payload {
         evs.push(Ev::Batch(0));
+    }
+    if sc.with_digest {
+        evs.push(Ev::Digest(0));
     }
     let mut push = |m: ConsensusMessage, evs: &mut Vec<Ev>| {
         let id = s.uni.intern(m);
@@ -428,5 +433,6 @@ pub fn default_cfg(node: usize, r: Round, tier: Tier) -> SoloCfg {
         with_sync_requests: false,
         stakes: vec![1, 1, 1, 1],
         with_unjustified: false,
+        with_digest: false,
     }
 }
